@@ -191,12 +191,12 @@ func (w *Worker) storeCell(slot *Value, v Value) { w.storeInto(slot, v) }
 var initWhitelist = map[string]bool{
 	"math": true, "math/bits": true, "math/cmplx": true, "sort": true, "errors": false,
 	"strconv": true, "unicode/utf8": true, "container/heap": true, "slices": true, "cmp": true,
-	"encoding/binary": true, "bytes": true, "strings": true, "io": true, "unicode": false,
+	"encoding/binary": true, "bytes": true, "strings": true, "io": true, "unicode": true,
 	"math/rand": false, "container/list": true,
 }
 
 // packages whose (expensive, table-building) init is run on first use only
-var lazyInit = map[string]bool{"strconv": true}
+var lazyInit = map[string]bool{"strconv": true, "unicode": true}
 
 func allowInit(path string) bool {
 	if strings.HasPrefix(path, "gonum.org/") || strings.HasPrefix(path, "golang.org/x/exp") {
